@@ -2,7 +2,8 @@
 Model of the message pipeline's check runner and of the two body paths
 (`internal/msgpipeline/check_runner.go`: `checkStates`, `runAndMergeResults`, `checkConnSender`,
 `checkRcpt`, `checkBody`, `applyResults`; `internal/msgpipeline/msgpipeline.go`: `Start`/`start`,
-`AddRcpt`, `Body`, `BodyNonAtomic`; `framework/config/module/check_action.go`: `FailAction.Apply`;
+`AddRcpt`, `Body`, `BodyNonAtomic`; `framework/config/module/check_action.go`: `FailAction.Apply`,
+`ParseActionDirective`, `ParseRejectDirective`, `parseEnhancedCode`;
 the refusal of quarantined messages in `internal/target/remote/remote.go`).  Core Lean only.
 
 The code mirrored is the tree *with* the C06 `fix:` commits (see notes/C06.md):
@@ -33,6 +34,10 @@ the destination blocks whose checks and modifiers take part in the body stage) i
 and BEFORE the block's `RewriteRcpt` runs; when that fails the state is closed and the entry stays
 (so recipients of the block accepted earlier keep the block in the body stage).  Address rewriting
 itself (a modifier returning other addresses) is not modelled: non-failing modifiers are identities.
+A scope without a `modify` directive has the EMPTY modifier group: none of its calls can fail (no entry in
+`MFaults` for it), everything else is the same - in particular `getRcptModifiers` stores the (empty) state
+of such a destination block in `rcptModifiersState` like any other, so the block takes part in the
+body stage (`useBlock` does not look at the modifiers).
 Not modelled: header/Authentication-Results merging, `CheckStateForMsg` / `ModStateForMsg` errors,
 panics inside checks (recovered and logged by the runner).  `mailFromReceived` is always true when
 `checkStates` runs (`start` calls `checkConnSender` first), so it is not a field - in particular
@@ -65,6 +70,108 @@ deriving DecidableEq, Repr
 def Act.apply (a : Act) (o : Res) : Res :=
   if o.reason = false then o
   else { o with q := (a == .quarantine) || o.q, r := (a == .reject) || o.r }
+
+/-! ## the action directive (`ParseActionDirective`, `ParseRejectDirective`, `parseEnhancedCode`)
+
+How a `FailAction` comes out of the configuration: the arguments of a `<x>_action` directive
+(`fail_action reject 550 5.7.1 "text"`).  The first argument is compared with the three documented
+words by `switch args[0]` and again by `args[0] == "reject"` / `== "quarantine"` - byte-wise, so any
+other spelling (`Reject`, `REJECT`, `reject `) is refused at load; `reject` / `quarantine` may be
+followed by a custom reply (1-3 arguments: SMTP code, enhanced code, text) parsed by
+`ParseRejectDirective`; what follows `ignore` is not looked at.  `strconv.Atoi` is mirrored for
+what the generated inputs contain (optional sign, decimal digits, no overflow). -/
+
+/-- `strconv.Atoi` on an optional sign followed by decimal digits (anything else is an error). -/
+def atoiL? (cs : List Char) : Option Int :=
+  let neg := cs.head? == some '-'
+  let ds := if cs.head? == some '-' || cs.head? == some '+' then cs.drop 1 else cs
+  if ds.isEmpty || !ds.all Char.isDigit then none
+  else
+    let n : Nat := ds.foldl (fun a c => a * 10 + (c.toNat - '0'.toNat)) 0
+    some (if neg then -(n : Int) else (n : Int))
+
+def atoi? (s : String) : Option Int := atoiL? s.toList
+
+/-- `strings.Split(s, ".")` on the characters. -/
+def splitDots : List Char → List (List Char)
+  | [] => [[]]
+  | c :: r =>
+    match splitDots r with
+    | [] => [[c]]
+    | g :: gs => if c == '.' then [] :: g :: gs else (c :: g) :: gs
+
+/-- `parseEnhancedCode`: exactly three `.`-separated integers. -/
+def enhCode? (s : String) : Option (Int × Int × Int) :=
+  match splitDots s.toList with
+  | [a, b, c] =>
+    match atoiL? a, atoiL? b, atoiL? c with
+    | some a, some b, some c => some (a, b, c)
+    | _, _, _ => none
+  | _ => none
+
+/-- `FailAction.ReasonOverride` (an `exterrors.SMTPError`). -/
+structure Override where
+  code : Int
+  enh : Int × Int × Int
+  msg : String
+deriving DecidableEq, Repr
+
+def defaultMsg : String := "Message rejected due to a local policy"
+
+/-- `(code/100) != 4 && (code/100) != 5` fails (Go's division truncates: exactly 400-599 pass). -/
+def codeOk (code : Int) : Bool := decide (400 ≤ code) && decide (code ≤ 599)
+
+/-- `ParseRejectDirective`: `none` = an error (the configuration is refused). -/
+def parseReject (args : List String) : Option Override :=
+  match args with
+  | [] => some ⟨554, (5, 7, 0), defaultMsg⟩
+  | [c] =>
+    match atoi? c with
+    | some code => if codeOk code then some ⟨code, (code / 100, 7, 0), defaultMsg⟩ else none
+    | none => none
+  | c :: e :: rest =>
+    let msg? : Option String := match rest with
+      | [] => some defaultMsg
+      | [m] => if m == "" then none else some m
+      | _ => none
+    match msg?, enhCode? e, atoi? c with
+    | some m, some en, some code =>
+      if (en.1 == 4 || en.1 == 5) && codeOk code then some ⟨code, en, m⟩ else none
+    | _, _, _ => none
+
+/-- `modconfig.FailAction`. -/
+structure FailAction where
+  quarantine : Bool
+  reject : Bool
+  ovr : Option Override
+deriving DecidableEq, Repr
+
+/-- `ParseActionDirective`; `none` = an error: the configuration is refused at load. -/
+def parseAction (args : List String) : Option FailAction :=
+  match args with
+  | [] => none
+  | w :: rest =>
+    if w = "reject" ∨ w = "quarantine" then
+      if rest.isEmpty then some ⟨w == "quarantine", w == "reject", none⟩
+      else (parseReject rest).map (fun o => ⟨w == "quarantine", w == "reject", some o⟩)
+    else if w = "ignore" then some ⟨false, false, none⟩
+    else none
+
+/-- The flags as the runner's action (`Apply` only ORs them in; the parser never sets both). -/
+def FailAction.act (a : FailAction) : Act :=
+  if a.reject then .reject else if a.quarantine then .quarantine else .ignore
+
+/-- `FailAction.Apply` on the parsed value (the override only wraps the reason). -/
+def FailAction.apply (a : FailAction) (o : Res) : Res :=
+  if o.reason = false then o
+  else { o with q := a.quarantine || o.q, r := a.reject || o.r }
+
+/-- What the documentation says a directive word means. -/
+def documented (w : String) : Option Act :=
+  if w = "reject" then some .reject
+  else if w = "quarantine" then some .quarantine
+  else if w = "ignore" then some .ignore
+  else none
 
 /-- What one finished check goroutine contributes to the merge. -/
 inductive Eff | none | quar | rej
